@@ -173,7 +173,7 @@ def w_from(kind: int, layout: int, frm: int, parent_removed: bool, noise: int, n
     post: _ == ''
     """
     return _case(rt.sel(kind, 6), [0, 2, 5][name], rt.sel(layout, 4), [0, 2, 3][sort], rt.sel(frm, 5),
-                 [False, True][parent_removed], rt.sel(noise, 4))
+                 rt.selb(parent_removed), rt.sel(noise, 4))
 
 
 def w_full(kind: int, name: int, layout: int, sort: int, frm: int, parent_removed: bool, noise: int) -> str:
@@ -183,7 +183,7 @@ def w_full(kind: int, name: int, layout: int, sort: int, frm: int, parent_remove
     post: _ == ''
     """
     return _case(rt.sel(kind, 6), rt.sel(name, 16), rt.sel(layout, 4), rt.sel(sort, 4), rt.sel(frm, 5),
-                 [False, True][parent_removed], rt.sel(noise, 4))
+                 rt.selb(parent_removed), rt.sel(noise, 4))
 
 
 # ------------------------------------------------------------------ K: path half
